@@ -28,11 +28,12 @@ PARK_TIMEOUT = 0.25
 
 def probe(conv, types, battery):
     """input index -> result string (the observable compared across converters)."""
-    out = []
+    out, kinds = [], []
     for item in battery:
         cls = getattr(types, item["cls"], None)
         if cls is None:
             out.append("nocls")
+            kinds.append("")
             continue
         try:
             obj = conv.structure(item["j"], cls)
@@ -41,8 +42,19 @@ def probe(conv, types, battery):
         except BaseException as e:  # noqa: BLE001
             if isinstance(e, (KeyboardInterrupt, SystemExit)):
                 raise
+            # detailed validation wraps errors in exception groups: the class name is part of the
+            # observable behaviour of a configuration, the text is not
             out.append("error")
-    return out
+            kinds.append(type(e).__name__)
+            continue
+        kinds.append("")
+    return out, kinds
+
+
+def probe_events(name, cc, conv, types, battery):
+    res, kinds = probe(conv, types, battery)
+    return [{"e": "Probe", "conv": name, "cc": cc, "input": i, "acc": r != "error",
+             "res": r if r != "error" else "error:" + kinds[i]} for i, r in enumerate(res)]
 
 
 def make(cfg, pool):
@@ -57,6 +69,12 @@ def make(cfg, pool):
         return converters.get_converter(c)
     if cfg == "user_nodetail":
         c = cattrs.Converter(detailed_validation=False)
+        pool.append(c)
+        return converters.get_converter(c)
+    if cfg == "user_hook":
+        from lsprotocol import types
+        c = cattrs.Converter()
+        c.register_unstructure_hook(types.Position, lambda p: {"line": p.line, "character": p.character, "userHook": True})
         pool.append(c)
         return converters.get_converter(c)
     if cfg == "same_again":
@@ -203,24 +221,25 @@ def run_sched(schedule, battery):
     for n in names:
         kind, val = results.get(n, ("error", ""))
         if kind == "ok":
-            for i, r in enumerate(probe(val, types, battery)):
-                events.append({"e": "Probe", "conv": n, "input": i, "res": r})
+            events.extend(probe_events(n, "d", val, types, battery))
     return {"events": events, "forced": forced, "deviated": deviated, "nfilter": nfilter, "nres": nres}
 
 
 def run_hist(history, battery):
     from lsprotocol import types
-    pool, convs, events = [], [], []
+    pool, convs, events, classes = [], [], [], {}
     for i, cfg in enumerate(history):
         name = "c%d" % (i + 1)
         try:
-            convs.append((name, make(cfg, pool)))
+            conv = make(cfg, pool)
+            if cfg in ("user_nodetail", "user_hook"):
+                classes[id(conv)] = "n" if cfg == "user_nodetail" else "h"
+            convs.append((name, conv, classes.get(id(conv), "d")))
             events.append({"e": "Create", "conv": name, "cfg": cfg, "ok": True, "exc": ""})
         except BaseException as e:  # noqa: BLE001
             events.append({"e": "Create", "conv": name, "cfg": cfg, "ok": False, "exc": type(e).__name__ + ": " + str(e)[:120]})
-        for cname, c in convs:          # creating one must not alter another: probe all, every time
-            for k, r in enumerate(probe(c, types, battery)):
-                events.append({"e": "Probe", "conv": cname, "input": k, "res": r})
+        for cname, c, cc in convs:      # creating one must not alter another: probe all, every time
+            events.extend(probe_events(cname, cc, c, types, battery))
     return {"events": events, "forced": len(history), "deviated": 0}
 
 
@@ -249,8 +268,7 @@ def run_stress(nthreads, battery):
         kind, val = results.get(n, ("error", "thread did not finish"))
         events.append({"e": "Create", "conv": n, "cfg": "fresh", "ok": kind == "ok", "exc": "" if kind == "ok" else val})
         if kind == "ok":
-            for k, r in enumerate(probe(val, types, battery[:40])):
-                events.append({"e": "Probe", "conv": n, "input": k, "res": r})
+            events.extend(probe_events(n, "d", val, types, battery[:40]))
     return {"events": events, "forced": 0, "deviated": 0}
 
 
